@@ -270,6 +270,15 @@ def install(ctx):
             return opt_sym(okc, Ref(Loc(Cell(Str(s.b, z3.simplify(s.lo + a), z3.simplify(s.lo + b)), 'str.get'))))
         raise Unsupported('str::get with %r' % (rng,))
 
+    @M.reg('<str as Index>::index', '<String as Index>::index')
+    def str_index(ip, pc, args, dt):
+        # &s[a..] / &s[..b] / &s[a..b]: as str::get, but out of range or off a char boundary panics
+        o = str_get(ip, pc, args, dt)
+        d = o.discr if not isinstance(o.discr, int) else z3.IntVal(o.discr)
+        if not ip.path.branch(d == 1, 'str index in range'):
+            raise PanicPath('panic', 'byte index out of range or not a char boundary')
+        return o.payload[1][0]
+
     @M.reg('str::split_once', 'str::rsplit_once')
     def str_split_once(ip, pc, args, dt):
         s_, pat = as_str(args[0]), args[1]
